@@ -184,6 +184,7 @@ func rulesC15(w *World, o *Out) {
 		// guarded by !GT(limit)
 		okG := false
 		var gt *ssa.Call
+		var gtFact Fact
 		for _, fa := range FactsAt(m.Site.Instr) {
 			if fa.Kind == FFalse {
 				if c, ok := canon(fa.V).(*ssa.Call); ok {
@@ -193,6 +194,7 @@ func rulesC15(w *World, o *Out) {
 						if nm == "Limit" && tn == "Total" {
 							okG = true
 							gt = c
+							gtFact = fa
 						}
 					}
 				}
@@ -209,6 +211,15 @@ func rulesC15(w *World, o *Out) {
 					saved = mi.X
 				}
 				same = canon(saved) == canon(b1) || saved == b1
+				// the comparison may sit in a guard helper that received the usage record (by value or by pointer)
+				if !same {
+					rb := gtFact.Resolve(b1)
+					if rb == canon(saved) || rb == saved {
+						same = true
+					} else if ld, isLd := rb.(*ssa.UnOp); isLd && ld.Op == token.MUL && (ld.X == saved || canon(ld.X) == canon(saved)) {
+						same = true
+					}
+				}
 			}
 			o.Check("C15.R3", "UpdateBridgeTransferUsageWithLimit|the value checked is the value stored", same, w.Pos(m.Site.Instr.Pos()), "the usage object compared with the limit must be the one persisted")
 		}
